@@ -125,7 +125,7 @@ def t2(ctx):
     import ast as _ast
     writers = []
     for g in ctx.prog.all_funcs():
-        if g.module != 'core' or g is f or g.name == '__init__':
+        if g.module != 'core' or g is f or g.name == '__init__' or g.qual.startswith(f.qual + '.<locals>.'):
             continue
         from .model import walk_shallow as _ws
         for n in _ws(g.node):
@@ -317,7 +317,7 @@ def _t5(ctx, nested):
         if lid is None:
             # the cleanup callable may be a closure: take the list the removal loop iterates
             for ev in p.trace:
-                if ev.kind == 'FOR' and ev.d['iter'].k == 'list' and ev.fn is f:
+                if ev.kind == 'FOR' and ev.d['iter'].k == 'list':
                     lid = ev.d['iter'].a[1]
         if lid is None:
             continue
